@@ -161,8 +161,6 @@ def carved(a):
         return True
     if k == 'verin' and a[1] == 'python_version' and any(len(pep440.release_of(x)) > 2 for x in a[2]):
         return True
-    if k == 'verin' and a[1] != 'python_version' and any(not all(c.isdigit() or c == '.' for c in x) for x in a[2]):
-        return True      # in-list members with pre/post/dev parts: matched as full versions (outside the theorem's scope)
     return False
 
 
